@@ -27,3 +27,13 @@ func VerifT00Bug() {
 	buf[x] = 1
 	nd.Reach("done")
 }
+
+// VerifT00Concrete is a concrete differential probe.
+func VerifT00Concrete() {
+	fset := token.NewFileSet()
+	prog, err := Split(fset, "p.patch", []byte("\n\n\n"))
+	nd.Assert(err != nil, "err must be non-nil")
+	nd.Assert(len(prog) > 0, "prog must be non-empty")
+	nd.Assert((err != nil) != (len(prog) > 0), "xor (expected to FAIL)")
+	nd.Reach("done")
+}
